@@ -43,6 +43,10 @@ def cases(tier, seed):
             for inp in ("value", "exc"):
                 out.append({"name": "map.attach/%s/%s/%s" % (kind, form, inp), "kind": "attach", "op": kind, "form": form, "inp": inp,
                             "budget": 700 if tier == "quick" else None})
+    for shape in ("flat>map", "map>flat>map", "flat>flat", "flat>map>map"):
+        for direction in ("complete|cancel", "cancel|complete"):
+            out.append({"name": "map.chain-cancel/%s/%s" % (shape, direction), "kind": "chainsweep", "shape": shape, "dir": direction,
+                        "cap": 40 if tier == "quick" else None})
     cap = 24 if tier == "quick" else None
     for kind in ("map", "flat_map", "flat_map_inner"):
         for form in ("executor", "f"):
@@ -54,6 +58,13 @@ def cases(tier, seed):
 
 class World(object):
     """One map / flat_map application with recorded fn / error_fn."""
+
+    def refused_cancel(self):
+        """The input is already running: cancel() of the output is refused."""
+        fut = self.me.fut(0) if self.form == "executor" else self.src
+        if not fut.done():
+            fut.set_running_or_notify_cancel()
+        return self.out.cancel()
 
     def __init__(self, ctx, op, form, inp, when, fnk, efnk):
         ME = instr.ME
@@ -231,18 +242,26 @@ def run_laws(case, res):
     op = case["op"]
     fns = MAP_FN if op == "map" else FLAT_FN
     efns = MAP_EFN if op == "map" else FLAT_EFN
-    for fnk, efnk in itertools.product(fns, efns):
+    combos = [(f, e, False) for f, e in itertools.product(fns, efns)]
+    if case["when"] == "later":
+        # the same product after a refused cancel() of the output (input already running)
+        combos += [(f, e, True) for f, e in itertools.product(fns, efns)]
+    for fnk, efnk, pre_cancel in combos:
         begin("rt")
         ctx = Ctx()
         try:
             w = World(ctx, op, case["form"], case["inp"], case["when"], fnk, efnk)
+            if pre_cancel:
+                r = w.refused_cancel()
+                if r is not False:
+                    res.violation("cancel-of-running-not-refused", "%s: cancel() returned %r while the input was running" % (case["name"], r))
             w.complete_input()
             w.complete_inner()
             res.execs += 1
             check_common(res)
-            label = "%s fn=%s error_fn=%s" % (case["name"], fnk, efnk)
+            label = "%s fn=%s error_fn=%s%s" % (case["name"], fnk, efnk, " after a refused cancel()" if pre_cancel else "")
             if w.judge(res, label):
-                res.key(case["name"], fnk, efnk)
+                res.key(case["name"], fnk, efnk, pre_cancel)
             res.sample({"point": [op, case["form"], case["inp"], case["when"], fnk, efnk], "output": outcome_repr(outcome(w.out)),
                         "fn_calls": len(w.fn.calls) if w.fn else 0, "error_fn_calls": len(w.efn.calls) if w.efn else 0}, limit=1)
         finally:
@@ -396,6 +415,70 @@ class CScenario(object):
             res.key("cancel", self.case["name"], info.get("site"))
 
 
+class ChainScenario(object):
+    """A chain of f_map / f_flat_map stages (flat_map functions return already finished futures) whose input
+    completes on one thread while the final output is cancelled on another."""
+
+    def __init__(self, case):
+        self.case = case
+
+    def setup(self):
+        F = instr.ME.futures
+        ctx = Ctx()
+        ctx.src = SpyFuture("src")
+        cur = ctx.src
+        ctx.stages = []
+        for k, st in enumerate(self.case["shape"].split(">")):
+            if st == "flat":
+                cur = F.f_flat_map(cur, lambda x, k=k: F.f_return(("f%d" % k, x)))
+            else:
+                cur = F.f_map(cur, lambda x, k=k: ("m%d" % k, x))
+            ctx.stages.append(cur)
+        ctx.out = cur
+        ctx.cancel_ret = None
+        return ctx
+
+    def complete(self, ctx):
+        try:
+            ctx.src.set_result(("v", 1))
+        except cf.InvalidStateError:
+            pass
+
+    def cancel(self, ctx):
+        ctx.cancel_ret = ctx.out.cancel()
+
+    def victim_role(self, ctx):
+        return "V"
+
+    def start_victim(self, ctx):
+        return ctx.actor("V", self.complete if self.case["dir"].startswith("complete") else self.cancel, ctx).go()
+
+    def intervene(self, ctx):
+        (self.cancel if self.case["dir"].startswith("complete") else self.complete)(ctx)
+
+    def hang_key(self, ctx, stuck):
+        return "map.chain-cancel/%s" % self.case["shape"]
+
+    def finish(self, ctx):
+        self.complete(ctx)
+
+    def oracle(self, ctx, res, info):
+        label = "%s placement=%s cancel()->%r" % (self.case["name"], info.get("site"), ctx.cancel_ret)
+        o = outcome(ctx.out)
+        want = ("v", 1)
+        for k, st in enumerate(self.case["shape"].split(">")):
+            want = (("f%d" if st == "flat" else "m%d") % k, want)
+        if ctx.cancel_ret is True:
+            if o[0] != "cancelled":
+                res.violation("cancel-true-but-%s" % o[0], "%s: output is %s" % (label, outcome_repr(o)))
+        elif o[0] == "pending":
+            res.violation("output-pending", "%s: chain output never resolved" % label)
+        elif o != ("value", want) and o[0] != "cancelled":
+            res.violation("chain-differs-from-composition", "%s: got %s expected %r" % (label, outcome_repr(o), want))
+        if info.get("hit"):
+            res.key("chaincancel", self.case["name"], info.get("site"))
+
+
 class AScenario(object):
     """stage 1 completing on one thread (paused at i) while stage 2 is being attached on
     another (paused at j); the completer is released first."""
@@ -463,6 +546,10 @@ class AScenario(object):
 
 def run_case(case, res):
     k = case["kind"]
+    if k == "chainsweep":
+        rng = random.Random("c13cs/%s/%s" % (case["seed"], case["name"]))
+        Sweep(ChainScenario(case), res, "rt", case["name"]).run(case["cap"], rng, per_site=3)
+        return
     if k == "attach":
         rng = random.Random("c13a/%s/%s" % (case["seed"], case["name"]))
         SweepNested(AScenario(case), res, "rt", case["name"]).run(None, None, rng, per_site=1, budget=case["budget"])
